@@ -97,8 +97,18 @@ pub broadcast axiom fn axiom_slice_u8_cmp(a: &[u8], b: &[u8])
     ensures
         #[trigger] vstd::std_specs::cmp::OrdSpec::cmp_spec(&(*a), &*b) == lex_cmp(a@, b@),
 ;
+pub broadcast axiom fn axiom_slice_vec_u8_eq(a: &[u8], b: &Vec<u8>)
+    ensures
+        #[trigger] vstd::std_specs::cmp::PartialEqSpec::eq_spec(&(*a), &*b) == (a@ == b@),
+;
+pub broadcast axiom fn axiom_sliceref_vec_u8_eq<'a>(a: &&'a [u8], b: &Vec<u8>)
+    ensures
+        #[trigger] vstd::std_specs::cmp::PartialEqSpec::eq_spec(&(*a), &*b) == ((*a)@ == b@),
+;
 pub axiom fn axiom_slice_u8_obeys()
     ensures
+        <&[u8] as PartialEqSpec<Vec<u8>>>::obeys_eq_spec(),
+        <[u8] as PartialEqSpec<Vec<u8>>>::obeys_eq_spec(),
         <[u8] as PartialOrdSpec<[u8]>>::obeys_partial_cmp_spec(),
         <[u8] as PartialEqSpec<[u8]>>::obeys_eq_spec(),
         <[u8] as OrdSpec>::obeys_cmp_spec(),
@@ -166,11 +176,21 @@ pub fn extend_be64s(buf: &mut Vec<u8>, offsets: &Vec<u64>)
 } // verus!
 
 verus! {
+/// `AsRef` as a pure view (ASSUMED for the user's key/value types, for which `as_ref_pinned` is taken to hold;
+/// the two AsRef impls inside grenad are verified against their own explicit postconditions instead)
+pub uninterp spec fn as_ref_spec<A: core::marker::PointeeSized, T: core::marker::PointeeSized>(a: &A) -> &T;
+pub uninterp spec fn as_ref_pinned<A: core::marker::PointeeSized, T: core::marker::PointeeSized>() -> bool;
+pub open spec fn as_ref_view<A: core::marker::PointeeSized>(a: &A) -> Seq<u8> { as_ref_spec::<A, [u8]>(a)@ }
 #[verifier::external_trait_specification]
 pub trait ExAsRef<T: core::marker::PointeeSized>: core::marker::PointeeSized {
     type ExternalTraitSpecificationFor: AsRef<T>;
     fn as_ref(&self) -> &T;
 }
+/// std: Vec<u8> and references to AsRef types view as their content
+pub broadcast axiom fn axiom_as_ref_vec(v: &Vec<u8>)
+    ensures #[trigger] as_ref_view::<Vec<u8>>(v) == v@;
+pub broadcast axiom fn axiom_as_ref_ref<A>(a: &&A)
+    ensures #[trigger] as_ref_view::<&A>(a) == as_ref_view::<A>(*a);
 pub assume_specification<T, A: core::alloc::Allocator> [<Vec<T, A> as AsRef<[T]>>::as_ref] (v: &Vec<T, A>) -> (r: &[T])
     ensures r@ == v@;
 } // verus!
